@@ -68,7 +68,31 @@ def _mk_plugin(name):
     return plugin
 
 
-PLUGINS = {n: _mk_plugin(n) for n in ('p1', 'p2', 'p3')}
+class _Recorder:
+    """a plugin that is a BOUND METHOD: every `obj.fire` is a new object that
+    is == to the others but not identical to them"""
+
+    def __init__(self, name):
+        self.name = name
+
+    def fire(self, tape, stack, cache):
+        Fired.log.append(self.name)
+        return True
+
+
+class _Plugins(dict):
+    """p1, p2: plain functions; p3: a bound method, handed over through a
+    fresh reference at every add / remove (as `obj.method` always is)"""
+
+    def __getitem__(self, k):
+        if k == 'p3':
+            return _P3.fire
+        return dict.__getitem__(self, k)
+
+
+_P3 = _Recorder('p3')
+PLUGINS = _Plugins({n: _mk_plugin(n) for n in ('p1', 'p2')})
+PLUGINS['p3'] = None            # the key exists; the value is made on access
 
 
 class Contract:
